@@ -97,7 +97,19 @@ def add_grids(rng, P, tname, dyadic):
     return sorted(zs)
 
 
-def observe(P, res, key, collect_events=True):
+def pick_units(rng, frac=0.4):
+    """Some inputs are written in user units (the oracle keeps the SI
+    problem)."""
+    if rng.random() >= frac:
+        return None
+    from vmon.oracle import c17_units as U
+    return U.Units(length=wl.choose(rng, ['cm', 'in', 'mm', 'ft']),
+                   temp=wl.choose(rng, ['K', 'C', 'F']),
+                   mass=wl.choose(rng, ['kg', 'lb']),
+                   time=wl.choose(rng, ['s', 'hr', 'min']))
+
+
+def observe(P, res, key, collect_events=True, units=None):
     """Sweep once; return per-assembly pressure-drop data and grid events."""
     events = {}
     incs = {'neg': 0, 'n': 0}
@@ -125,8 +137,13 @@ def observe(P, res, key, collect_events=True):
         if not (a.pressure_drop - tot0 >= -1e-12 * abs(tot0)):
             incs['neg'] += 1
 
+    Q = P
+    if units is not None:
+        from vmon.oracle import c17_units as U
+        Q = U.convert_problem(P, units)
+        res.tag('units=' + units.name)
     with drive.scratch() as d, Hooks() as hk:
-        inp, r = drive.build(P, d, max_steps=MAX_STEPS)
+        inp, r = drive.build(Q, d, max_steps=MAX_STEPS)
         hk.wrap(RoddedRegion, 'calculate_spacergrid_pressure_drop',
                 post=grid_post)
         hk.wrap(Assembly, 'calculate', pre=calc_pre, post=calc_post)
@@ -297,7 +314,8 @@ def run_steps(case, res):
         grids = add_grids(rng, P, 'a', dyadic)
     key = {'gravity': gravity, 'dyadic': dyadic, 'n_grid': len(grids)}
     P['setup'].pop('axial_mesh_size', None)
-    base, dzmax, req, zpl = observe(P, res, key)
+    units = pick_units(rng, 0.3)
+    base, dzmax, req, zpl = observe(P, res, key, units=units)
     check_static(res, base, P, key, True, gravity)
     check_grid_events(res, base, zpl, key)
     variants = [0.5, 1.0 / 3.0]
@@ -312,7 +330,7 @@ def run_steps(case, res):
         P2 = dict(P)
         P2['setup'] = dict(P['setup'])
         P2['setup']['axial_mesh_size'] = float(dz)
-        data, dzm, req2, zpl2 = observe(P2, res, key)
+        data, dzm, req2, zpl2 = observe(P2, res, key, units=units)
         check_static(res, data, P2, key, True, gravity)
         check_grid_events(res, data, zpl2, key)
         for a0, a1 in zip(base, data):
@@ -338,7 +356,7 @@ def run_steps(case, res):
 def run_core(case, res):
     """Several assemblies per type: each must report its own pressure drop."""
     rng = np.random.default_rng(case['seed'])
-    P, feats = wl.core_problem(rng, n_ring=2, n_types=int(rng.integers(1, 3)),
+    P, feats = wl.core_problem(rng, n_ring=2, n_types=int(rng.integers(1, 4)),
                                tdep=False, gap=wl.choose(rng, ['none',
                                                                'flow']),
                                empty_frac=0.1, max_rings=4, length=0.5,
@@ -354,7 +372,7 @@ def run_core(case, res):
         if not t.get('use_low_fidelity_model') and rng.random() < 0.7:
             ngr += len(add_grids(rng, P, tn, rng.random() < 0.5))
     key = {'gravity': gravity, 'core': True}
-    data, dzmax, req, zpl = observe(P, res, key)
+    data, dzmax, req, zpl = observe(P, res, key, units=pick_units(rng, 0.5))
     check_static(res, data, P, key, True, gravity)
     check_grid_events(res, data, zpl, key)
     names = [a['name'] for a in data]
@@ -383,7 +401,7 @@ def run_tdep(case, res):
             rng.random() < 0.5:
         add_grids(rng, P, 'a', False)
     key = {'gravity': gravity, 'tdep': True}
-    data, dzmax, req, zpl = observe(P, res, key)
+    data, dzmax, req, zpl = observe(P, res, key, units=pick_units(rng, 0.3))
     check_static(res, data, P, key, False, gravity)
     # density varies along the sweep: loss units are only near-integers
     check_grid_events(res, data, zpl, key, utol=0.2)
